@@ -1138,11 +1138,30 @@ def c07(case, lines):
             m = stream_strict(lines, op, exp)
             if m:
                 return "delivery: " + m
+        elif op in dropped_at and dk is None:
+            # a stream that is dropped later: until then it is a stream like any other
+            exp = []
+            aw = set()
+            for k, p in inp:
+                i = rx_info(p)
+                if i["t"] == 6:
+                    aw.discard(i["pid"])
+                if i["t"] != 3:
+                    continue
+                red = False
+                if i["qos"] == 2:
+                    red = i["pid"] in aw
+                    aw.add(i["pid"])
+                if fp[op] < k < dropped_at[op] and not red and sid in i["subids"]:
+                    exp.append((k, M.hx(i["payload"])))
+            m = stream_strict([l for l in lines if int(l.split(" ")[0]) < dropped_at[op]], op, exp)
+            if m:
+                return "delivery: " + m
         # a stream polled to Pending must have yielded everything delivered before that poll
         for l in lines:
             p = l.split(" ")
-            if p[1] == "E" and int(p[2]) == op and dk is None and op not in dropped_at:
-                return "end: stream %d ended although the context is alive" % op
+            if p[1] == "E" and int(p[2]) == op and dk is None and (op not in dropped_at or int(p[0]) < dropped_at[op]):
+                return "end: stream %d reported its end at event %s although the context is alive and nobody had dropped it" % (op, p[0])
     return None
 
 
@@ -1511,6 +1530,28 @@ def connect_content(tr):
         return "connect: the CONNECT written cannot be decoded field by field"
     if dp is None or wdp is None:
         return "connect: a property section of the CONNECT written cannot be decoded"
+    try:
+        # after the will: User Name (flag bit 7), Password (flag bit 6), each present iff the caller gave it
+        if has_will:
+            k += 2 + pl2
+        got_un = got_pw = None
+        if flags & 0x80:
+            ul = (body[k] << 8) | body[k + 1]
+            got_un = bytes(body[k + 2:k + 2 + ul])
+            k += 2 + ul
+        if flags & 0x40:
+            pwl = (body[k] << 8) | body[k + 1]
+            got_pw = bytes(body[k + 2:k + 2 + pwl])
+            k += 2 + pwl
+        if k != len(body):
+            return "connect: %d bytes of the CONNECT payload are left over after its last field" % (len(body) - k)
+    except Exception:
+        return "connect: the CONNECT payload written cannot be decoded field by field"
+    want_un = M.unhex(d["un"]) if "un" in d else None
+    want_pw = M.unhex(d["pw"]) if "pw" in d else None
+    if (got_un, got_pw) != (want_un, want_pw):
+        return "connect: the caller gave user name %s and password %s; the CONNECT written carries user name %s and password %s (flags byte 0x%02x)" % (
+            want_un, want_pw, got_un, got_pw, flags)
     if has_will != want_will:
         return "connect: the caller %s a will (topic and payload given: %s), the CONNECT written has Will Flag %d" % (
             "asked for" if want_will else "did not ask for", want_will, int(has_will))
